@@ -314,6 +314,17 @@ async fn run_op(s: &mut Session, t: &[&str]) -> Result<(), String> {
                         _ => Err("bad action".into()),
                     }
                 }
+                ["xmlfail", a, h] => {
+                    // a caller-supplied serialiser that fails after it has written part of its output
+                    let d = FailingPayload(hs(h)?);
+                    match *a {
+                        "merge" => load!(Config::new(d, Xml, Merge)),
+                        "override" => load!(Config::new(d, Xml, Override)),
+                        "update" => load!(Config::new(d, Xml, Update)),
+                        "replace" => load!(Config::new(d, Xml, Replace)),
+                        _ => Err("bad action".into()),
+                    }
+                }
                 ["xml", a, h] => {
                     let d = Opaque::from(hs(h)?);
                     match *a {
@@ -328,6 +339,17 @@ async fn run_op(s: &mut Session, t: &[&str]) -> Result<(), String> {
             }
         }
         _ => Err(format!("bad op {t:?}")),
+    }
+}
+
+/// writes its text verbatim, then reports an error (a streaming source that fails part-way)
+#[derive(Debug, Clone)]
+struct FailingPayload(String);
+
+impl netconf::message::WriteXml for FailingPayload {
+    fn write_xml<W: std::io::Write>(&self, writer: &mut quick_xml::Writer<W>) -> Result<(), netconf::message::WriteError> {
+        writer.get_mut().write_all(self.0.as_bytes()).map_err(|e| netconf::message::WriteError::Other(e.into()))?;
+        Err(netconf::message::WriteError::Other("payload source failed part-way".into()))
     }
 }
 
@@ -469,6 +491,7 @@ fn expects(t: &[&str]) -> Result<Vec<Expect>, String> {
                         Kind::Payload,
                     ));
                 }
+                ["xmlfail", ..] => {}
                 ["xml", a, h] => {
                     v.push(ex("load-configuration@format", "xml", Kind::Attr));
                     v.push(ex("load-configuration@action", *a, Kind::Attr));
@@ -970,6 +993,12 @@ fn gen_cases(opts: &Opts, rng: &mut Rng) -> Vec<String> {
             ops.push(format!("load-configuration xml:{a}:{x}"));
         }
     }
+    // payload serialisers that fail part-way (with nothing written, inside a start tag, between elements)
+    for part in ["", "<configuration><policy-options><policy-statement><name>", "<configuration><a/>", "<configuration", "text"] {
+        for a in ["merge", "override", "update", "replace"] {
+            ops.push(format!("load-configuration xmlfail:{a}:{}", h(part)));
+        }
+    }
     let mut cases: Vec<String> = ops
         .iter()
         .enumerate()
@@ -1395,6 +1424,22 @@ fn run_request(case: &str, cfg: &str, sink: &mut Sink) {
         }
     };
     sink.count(&format!("op.{}", toks[0]));
+    if op.contains("xmlfail:") {
+        // the payload serialiser reports an error after writing part of its output: nothing may be sent
+        let verdict = match block_on(exec(pre, &toks)) {
+            Err(e) => {
+                sink.notes.push(format!("{}: {e}", &case[..case.len().min(120)]));
+                "violation harness-error".to_string()
+            }
+            Ok((Err(_), _)) => "ok".to_string(),
+            Ok((Ok(w), _)) => {
+                sink.sample(format!("{case} -> SENT {}", String::from_utf8_lossy(&w[..w.len().min(160)])));
+                "violation message-sent-although-payload-serialiser-failed".to_string()
+            }
+        };
+        sink.direct(case, verdict);
+        return;
+    }
     match block_on(exec(pre, &toks)) {
         Err(e) => {
             sink.direct(case, "violation harness-error".into());
